@@ -86,6 +86,18 @@ TNotifyOne == /\ Is("NotifyOne") /\ Ev.tid \in Callers /\ cpc[Ev.tid] = "enotify
               /\ cpc' = [cpc EXCEPT ![Ev.tid] = "idle"] /\ cret' = [cret EXCEPT ![Ev.tid] = "ok"]
               /\ UNCHANGED <<nw, queue, mutex, stop, waiting, wvars, ccall, cargs, cidx, cpath, crun, done, threw, runs, ovars>>
 
+\* the future returned by enqueue(), asked with get() while the pool is alive (`alive`: blocks until the task ran) or looked at (without
+\* waiting) after the pool was destroyed: a task that ran to completion delivers "ok", a task that threw delivers its exception
+\* ("threw"); anything else ("broken" promise, "pending" for ever) only for a task that never ran to its end - which cannot be the case
+\* for a get() that returned while the pool was alive.  Nothing is demanded from the futures of tasks dropped by the destruction.
+TFuture == /\ Is("Future") /\ Ev.c \in Callers /\ Step /\ UNCHANGED vars
+           /\ (~Ev.alive => opc = "dead")
+           /\ LET t == Task(Ev.c, Ev.k, -1, -1) IN
+              CASE Ev.outcome = "ok" -> t \in done /\ t \notin threw
+                [] Ev.outcome = "threw" -> t \in done /\ t \in threw
+                [] Ev.outcome \in {"broken", "pending"} -> t \notin done /\ ~Ev.alive
+                [] OTHER -> FALSE
+
 \* ---- owner events (~pool_t)
 TStopSet == /\ Is("StopSet") /\ Release(-1) \cdot ((OLock /\ Same) \cdot (OStop /\ Step))
 TNotifyStop == /\ Is("NotifyStop") /\ ONotify /\ Step
@@ -113,10 +125,14 @@ TBigMap == /\ Is("BigMap") /\ Step /\ UNCHANGED vars
                                        /\ (Ev.tn[i] = Ev.tn[i + 1] => Ev.se[i] < Ev.sb[i + 1])   \* worker id exclusive
               /\ \A i \in 1..m : Ev.se[i] < Ev.ret                                             \* returns after all its tasks ended
 
+\* the size of a pool constructed without a size, with size 0, with a size above max_size(): at least one worker (the BigMap records
+\* that follow use it as the pool size: worker ids below it, every index exactly once), at most max_size()
+TPoolSize == /\ Is("PoolSize") /\ Step /\ UNCHANGED vars /\ Ev.size >= 1 /\ Ev.size <= Ev.maxsize
+
 TraceInit == l = 1 /\ InitWith(1)
 TraceNext == \/ TReset \/ TLocked \/ TWoke \/ TPop \/ TStopSeen \/ TBegin \/ TEnd
              \/ TMapCall \/ TBeginInl \/ TEndInl \/ TEnq \/ TNotifyAll \/ TMapRet \/ TEnqCall \/ TEnqOne \/ TNotifyOne
-             \/ TStopSet \/ TNotifyStop \/ TJoined \/ TDestroyed \/ TBigMap
+             \/ TStopSet \/ TNotifyStop \/ TJoined \/ TDestroyed \/ TBigMap \/ TFuture \/ TPoolSize
 TraceSpec == TraceInit /\ [][TraceNext]_tvars
 
 Accepted == LET d == TLCGet("stats").diameter IN
